@@ -87,8 +87,20 @@ def main():
         c = res["checks"].get(meta["property"], {})
         print("%-10s %-4s applied=%s caught=%s rc=%s %s" % (sid, meta["property"], res["applied"], c.get("caught"), c.get("rc"),
                                                              "; ".join(c.get("violations", [])[:1])), flush=True)
-    with open(os.path.join(SEEDED, "RESULTS.json"), "w") as f:
-        json.dump(dict(tier=a.tier, in_repo=a.in_repo, when=time.strftime("%Y-%m-%d %H:%M:%S"), results=results), f, indent=1)
+    rp = os.path.join(SEEDED, "RESULTS.json")
+    merged = {}
+    if os.path.exists(rp):
+        try:
+            merged = {r["id"]: r for r in json.load(open(rp)).get("results", [])}
+        except Exception:
+            merged = {}
+    stamp = time.strftime("%Y-%m-%d %H:%M:%S")
+    head = sh(["git", "-C", "/repo", "rev-parse", "--short", "HEAD"])[1].strip()
+    for r in results:
+        r.update(tier=a.tier, in_repo=a.in_repo, when=stamp, repo_head=head)
+        merged[r["id"]] = r
+    with open(rp, "w") as f:
+        json.dump(dict(results=[merged[k] for k in sorted(merged)]), f, indent=1)
     caught = sum(1 for r in results if r["checks"].get(r["property"], {}).get("caught"))
     print("caught %d of %d" % (caught, len(results)))
 
